@@ -10,6 +10,7 @@ import Driver.CliConfig
 import Driver.RunLimit
 import Driver.IterUtils
 import Driver.HandlerStore
+import Driver.Migrate
 
 def main (args : List String) : IO UInt32 := do
   let stdin ← IO.getStdin
@@ -25,4 +26,5 @@ def main (args : List String) : IO UInt32 := do
   | ["runlimit"] => Drv.loop stdin Drv.RunLimit.step {}; return 0
   | ["iterutils"] => Drv.loop stdin Drv.IterUtils.step .none; return 0
   | ["handlerstore"] => Drv.loop stdin Drv.HandlerStore.step (HandlerStore.Store.init (.mem none)); return 0
+  | ["migrate"] => Drv.loop stdin Drv.Migrate.step Migrate.fresh; return 0
   | _ => IO.eprintln "usage: wfdriver <model>"; return 2
